@@ -159,13 +159,27 @@ func (f *File) Truncate(size int64) error {
 	return op("truncate", f.Name(), 0, func(int) error { return f.File.Truncate(size) })
 }
 
+// FailRead, when non-nil, is asked before every read-only open / whole-file read; a non-nil answer is
+// returned instead of performing it (a transient I/O error on the read path).
+var FailRead func(name string) error
+
 func Open(name string) (*File, error) {
+	if FailRead != nil {
+		if err := FailRead(name); err != nil {
+			return nil, &PathError{Op: "open", Path: name, Err: err}
+		}
+	}
 	f, err := os.Open(name)
 	return wrap(f, err, false)
 }
 
 func OpenFile(name string, flag int, perm FileMode) (f *File, err error) {
 	if flag&(os.O_WRONLY|os.O_RDWR|os.O_CREATE|os.O_TRUNC|os.O_APPEND) == 0 {
+		if FailRead != nil {
+			if err := FailRead(name); err != nil {
+				return nil, &PathError{Op: "open", Path: name, Err: err}
+			}
+		}
 		of, e := os.OpenFile(name, flag, perm)
 		return wrap(of, e, false)
 	}
@@ -210,7 +224,14 @@ func WriteFile(name string, data []byte, perm FileMode) error {
 	return err
 }
 
-func ReadFile(name string) ([]byte, error)       { return os.ReadFile(name) }
+func ReadFile(name string) ([]byte, error) {
+	if FailRead != nil {
+		if err := FailRead(name); err != nil {
+			return nil, &PathError{Op: "open", Path: name, Err: err}
+		}
+	}
+	return os.ReadFile(name)
+}
 func ReadDir(name string) ([]DirEntry, error)    { return os.ReadDir(name) }
 func Stat(name string) (FileInfo, error)         { return os.Stat(name) }
 func Lstat(name string) (FileInfo, error)        { return os.Lstat(name) }
